@@ -7,6 +7,9 @@ CONSTANTS
   DTypes <- DT0
   DataSets <- DS1
   TempPairs <- TP2
+  TmPairs <- TM1
+  OneOpFactors <- OF1
+  BareKinds <- BK1
   Fixes <- NoFixes
 INIT Init
 NEXT Next
